@@ -4,7 +4,8 @@ A case is one workbook (nodes in topological order) + one configuration + one wh
 
     {'cfg': 'nodata' | 'xlsx' | 'yml' | 'json' | 'pkl',
      'nodes': [['I', addr, valtok] | ['F', addr, kind, args] | ['R', range_addr, rows, cols, [member nodes]]],
-     'ops': [['S', node, valtok] | ['E', node]]}
+     'ops': [['S', node, valtok] | ['E', node] | ['SR', address | [addresses], [member nodes], [valtoks], nested_cols]
+             | ['EL', [nodes]]]}
 
 `impl` drives the REAL ExcelCompiler (in-memory workbook / .xlsx with stored results written by xlsxwriter_min /
 to_file + from_file) and returns one token per operation; `model_lines` sends the same workbook and history to the Lean
@@ -31,6 +32,7 @@ THEOREMS = [NS + t for t in (
     'C01_init_nodata_inv', 'C01_init_stored_inv', 'C01_init_loaded_inv', 'C01_nodata', 'C01_stored', 'C01_loaded',
     'C01_stored_by_evaluation', 'C01_eqv_sound_needed', 'pyEq_not_sound', 'typedEq_sound', 'C01_pyEq_counterexample',
     'C01_blank_write_counterexample', 'C01_stale_stored_counterexample',
+    'C01_coherence_ext', 'C01_evaluate_list', 'C01_setMany_inputs', 'tolEq_not_sound',
     'C01_coherence_inst', 'C01_inputs_current_inst')]
 DESIGN_REF = 'DESIGN.md §7 C01'
 RULE = ('random DAG workbooks (2-14 cells on one or two sheets, blank cells, range nodes incl. 2-D and ranges over '
@@ -51,7 +53,7 @@ ASSUMPTIONS = [
 ]
 TRUSTED = ['modelled, not verified: openpyxl load/tokenizer, networkx, ruamel.yaml/json/pickle codecs, the concrete '
            'formula evaluator of pycel (compared only on the generated language)']
-REQUIRED_BUCKETS = ['nodata', 'xlsx', 'yml', 'json', 'pkl', 'nodata:exh', 'xlsx:exh']
+REQUIRED_BUCKETS = ['nodata', 'xlsx', 'yml', 'json', 'pkl', 'nodata:exh', 'xlsx:exh', 'nodata:near', 'xlsx:near']
 EXHAUSTIVE = False
 EXPLANATION = ('theorems: generic engine, all workbooks/histories/value types; correspondence: real ExcelCompiler vs '
                'compiled model per operation, plus implementation-only oracle against a from-scratch compile')
@@ -111,6 +113,10 @@ def formula_of(nodes, i, names=None):
         return '=' + '&"|"&'.join(ref(j) for j in args) + '&"|"'
     if kind == 'add':
         return f'={ref(args[0])}+{ref(args[1])}'
+    if kind == 'sub':
+        return f'={ref(args[0])}-{ref(args[1])}'
+    if kind == 'eq':
+        return f'={ref(args[0])}={ref(args[1])}'
     if kind == 'sum':
         return '=SUM(' + ','.join(ref(j) for j in args) + ')'
     if kind == 'cnt':
@@ -218,8 +224,21 @@ def fresh_value(nodes, inputs, i, names=None):
     return _FRESH_MEMO[k]
 
 
+def _in_cell_map(comp, addr):
+    from pycel.excelutil import AddressRange
+    return AddressRange.create(addr).address in comp.cell_map
+
+
+def _enc_eval(nodes, comp, a):
+    try:
+        return enc_result(nodes, a, comp.evaluate(nodes[a][1]))
+    except Exception as exc:   # noqa
+        return core.canon_exc(exc)
+
+
 def impl(case):
     nodes = case['nodes']
+    names = case.get('names')
     key = json.dumps(case, sort_keys=True)
     comp = _compiler(case, key)
     inputs = {}
@@ -236,14 +255,56 @@ def impl(case):
             except Exception as exc:   # noqa
                 out.append(core.canon_exc(exc))
             fresh.append(None)
-        else:
+        elif op[0] == 'SR':
+            # set_value(<range address> | [cell addresses], [values]): cells are written in order until the first one
+            # that is not in the cell map (AssertionError); what was written before stays written
+            members, vals = op[2], [_py(t) for t in op[3]]
+            prefix = 0
+            while prefix < len(members) and _in_cell_map(comp, nodes[members[prefix]][1]):
+                prefix += 1
+            arg = vals
+            if len(op) > 4 and op[4]:
+                arg = [vals[k:k + op[4]] for k in range(0, len(vals), op[4])]
             try:
-                out.append(enc_result(nodes, op[1], comp.evaluate(nodes[op[1]][1])))
+                comp.set_value(op[1], arg)
+                out.append('ok')
+                prefix = len(members)
+            except AssertionError:
+                out.append('rej')
             except Exception as exc:   # noqa
                 out.append(core.canon_exc(exc))
-            fresh.append(fresh_value(nodes, inputs, op[1], case.get('names')))
+            for j, v in list(zip(members, vals))[:prefix]:
+                inputs[j] = v
+            fresh.append(None)
+        elif op[0] == 'EL':
+            try:
+                addrs = [nodes[a][1] for a in op[1]]
+                res = comp.evaluate(addrs if len(op[1]) % 2 else tuple(addrs))
+                out.append('&'.join(enc_result(nodes, a, v) for a, v in zip(op[1], res)))
+            except Exception as exc:   # noqa
+                out.append(core.canon_exc(exc))
+            fresh.append('&'.join(fresh_value(nodes, inputs, a, names) for a in op[1]))
+        else:
+            out.append(_enc_eval(nodes, comp, op[1]))
+            fresh.append(fresh_value(nodes, inputs, op[1], names))
     _FRESH[key] = fresh
     return ';'.join(out)
+
+
+def same(impl_out, model_out):
+    """equal up to float rounding of sums (numbers travel exactly; the model is exact, pycel adds floats)"""
+    if impl_out == model_out:
+        return True
+    a, b = impl_out.split(';'), (model_out or '').split(';')
+    if len(a) != len(b):
+        return False
+    for x, y in zip(a, b):
+        if x == y:
+            continue
+        xs, ys = x.replace('&', ' ').split(' '), y.replace('&', ' ').split(' ')
+        if len(xs) != len(ys) or not all(p == q or core.num_close(p, q) for p, q in zip(xs, ys)):
+            return False
+    return True
 
 
 # ---------------------------------------------------------------------------------------------------------------
@@ -265,7 +326,14 @@ def model_lines(case):
         else:
             toks += ['R', str(n[2]), str(n[3])] + [str(j) for j in n[4]]
     for op in case['ops']:
-        toks += ['S', str(op[1]), op[2]] if op[0] == 'S' else ['E', str(op[1])]
+        if op[0] == 'S':
+            toks += ['S', str(op[1]), op[2]]
+        elif op[0] == 'E':
+            toks += ['E', str(op[1])]
+        elif op[0] == 'SR':
+            toks += ['M', str(len(op[2]))] + [t for j, v in zip(op[2], op[3]) for t in (str(j), v)]
+        else:
+            toks += ['X', str(len(op[1]))] + [str(a) for a in op[1]]
     return [' '.join(toks)]
 
 
@@ -284,7 +352,7 @@ def oracles(results):
             yield r.case, f'history aborted: {r.impl[:120]}'
             continue
         for k, (o, f) in enumerate(zip(outs, fresh)):
-            if f is not None and o != f:
+            if f is not None and o != f and not same(o, f):
                 op = r.case['ops'][k]
                 yield r.case, (f'op #{k} evaluate({r.case["nodes"][op[1]][1]}) = {core.show(o)} but a from-scratch '
                                f'compile with the current inputs gives {core.show(f)}')
@@ -321,9 +389,11 @@ def finding_key(case, impl_out, model_out):
         fresh = _FRESH.get(json.dumps(case, sort_keys=True)) or []
         ref = ';'.join(f if f is not None else o for o, f in zip((impl_out or '').split(';'), fresh))
     k = _first_diff(case, impl_out, ref)
-    if k is None or case['ops'][k][0] != 'E':
+    if k is None or case['ops'][k][0] not in ('E', 'EL'):
         return None
-    if _precedents(nodes)[case['ops'][k][1]] & empties:
+    targets = [case['ops'][k][1]] if case['ops'][k][0] == 'E' else case['ops'][k][1]
+    clo = _precedents(nodes)
+    if any(clo[a] & empties for a in targets):
         return 'xlsx.stored.emptytext'
     return None
 
@@ -355,16 +425,19 @@ def nontrivial(case):
     cur = {i: n[2] for i, n in enumerate(nodes) if n[0] == 'I'}
     changed = set()
     for op in case['ops']:
-        if op[0] == 'S' and nodes[op[1]][0] == 'I' and cur.get(op[1]) != op[2]:
-            cur[op[1]] = op[2]
-            changed.add(op[1])
-        elif op[0] == 'E' and clo[op[1]] & changed:
-            return True
+        writes = [(op[1], op[2])] if op[0] == 'S' else list(zip(op[2], op[3])) if op[0] == 'SR' else []
+        for i, v in writes:
+            if nodes[i][0] == 'I' and cur.get(i) != v:
+                cur[i] = v
+                changed.add(i)
+        for a in ([op[1]] if op[0] == 'E' else op[1] if op[0] == 'EL' else []):
+            if clo[a] & changed:
+                return True
     return False
 
 
 def bucket(case):
-    return case['cfg'] + (':exh' if case.get('exh') else '')
+    return case['cfg'] + (':exh' if case.get('exh') else ':near' if case.get('near') else '')
 
 
 # ---------------------------------------------------------------------------------------------------------------
@@ -445,14 +518,14 @@ def gen_workbook(rng, free_ranges=True):
         cellnodes = [i for i, n in enumerate(nodes) if n[0] != 'R']
         if cellnodes and rng.random() < p_formula:
             rs = rects()
-            kind = rng.choice(['ref', 'cat', 'cat', 'add', 'sum', 'sum', 'cnt', 'idx'])
+            kind = rng.choice(['ref', 'cat', 'cat', 'add', 'sub', 'eq', 'sum', 'sum', 'cnt', 'idx'])
             if kind in ('idx',) and not rs:
                 kind = 'cat'
             if kind == 'ref':
                 args = [rng.choice(cellnodes)]
             elif kind == 'cat':
                 args = [rng.choice(cellnodes) for _ in range(rng.randint(1, 3))]
-            elif kind == 'add':
+            elif kind in ('add', 'sub', 'eq'):
                 args = [rng.choice(cellnodes), rng.choice(cellnodes)]
             elif kind in ('sum', 'cnt'):
                 args = []
@@ -478,18 +551,68 @@ def gen_workbook(rng, free_ranges=True):
     return nodes
 
 
+def _grid(nodes):
+    """(sheet text, col, row) -> node for the cell nodes"""
+    import re
+    g = {}
+    for i, n in enumerate(nodes):
+        if n[0] != 'R':
+            sheet, _, coord = n[1].rpartition('!')
+            m = re.fullmatch(r'([A-Z])(\d+)', coord)
+            g[(sheet, ord(m.group(1)) - 64, int(m.group(2)))] = i
+    return g
+
+
+def input_rects(nodes):
+    """rectangles (2..6 cells) all of whose cells are value cells: (address, member nodes row-major, cols)"""
+    g = _grid(nodes)
+    out = []
+    for sheet in sorted({k[0] for k in g}):
+        cols = max(k[1] for k in g if k[0] == sheet)
+        rows = max(k[2] for k in g if k[0] == sheet)
+        for c1 in range(1, cols + 1):
+            for c2 in range(c1, cols + 1):
+                for r1 in range(1, rows + 1):
+                    for r2 in range(r1, rows + 1):
+                        cells = [(sheet, c, r) for r in range(r1, r2 + 1) for c in range(c1, c2 + 1)]
+                        if 2 <= len(cells) <= 6 and all(k in g and nodes[g[k]][0] == 'I' for k in cells):
+                            out.append((f'{sheet}!{colname(c1)}{r1}:{colname(c2)}{r2}', [g[k] for k in cells],
+                                        c2 - c1 + 1))
+    return out
+
+
+def gen_multi_write(rng, nodes, rects, inputs, value=None):
+    """one set_value of several cells: a range address (flat or nested values) or a list of cell addresses"""
+    value = value or (lambda j: rand_value(rng))
+    if rects and rng.random() < 0.7:
+        addr, members, cols = rng.choice(rects)
+        nested = cols if (cols > 1 and len(members) > cols and rng.random() < 0.5) else 0
+        return ['SR', addr, members, [_tok(value(j)) for j in members], nested]
+    members = rng.sample(inputs, min(len(inputs), rng.randint(2, 3)))
+    return ['SR', [nodes[j][1] for j in members], members, [_tok(value(j)) for j in members], 0]
+
+
 def gen_history(rng, nodes, built_all):
     inputs = [i for i, n in enumerate(nodes) if n[0] == 'I']
     built = set(range(len(nodes))) if built_all else set()
     clo = _precedents(nodes)
+    rects = input_rects(nodes)
     ops = []
     for _ in range(rng.randint(1, 25)):
-        if inputs and rng.random() < 0.5:
+        r = rng.random()
+        if inputs and r < 0.12 and len(inputs) >= 2:
+            ops.append(gen_multi_write(rng, nodes, rects, inputs))
+        elif inputs and r < 0.5:
             cand = [i for i in inputs if i in built]
             if not cand or rng.random() < 0.04:
                 cand = inputs
             i = rng.choice(cand)
             ops.append(['S', i, _tok(rand_value(rng))])
+        elif r < 0.58:
+            tg = [rng.randrange(len(nodes)) for _ in range(rng.randint(1, 3))]
+            ops.append(['EL', tg])
+            for a in tg:
+                built |= {a} | clo[a]
         else:
             a = rng.randrange(len(nodes))
             ops.append(['E', a])
@@ -498,6 +621,85 @@ def gen_history(rng, nodes, built_all):
     rng.shuffle(tail)
     ops += [['E', a] for a in tail]
     return ops
+
+
+# --- writes that are nearly equal to the current value, under formulas that amplify the difference
+
+def near_value(rng, v):
+    """a number different from v but very close to it (or v itself, or a plain change)"""
+    import math
+    v = 0 if v is None or isinstance(v, (str, bool)) else v
+    r = rng.random()
+    if v == 0:
+        return rng.choice([2.0 ** -40, -2.0 ** -30, 1e-9, -1e-12, 5e-324, 0, 1, None])
+    if r < 0.25 and float(v).is_integer() and abs(v) >= 1000:
+        return int(v) + rng.choice([1, -1])
+    if r < 0.45:
+        return math.nextafter(float(v), math.inf if rng.random() < 0.5 else -math.inf)
+    if r < 0.8:
+        return float(v) * (1 + rng.choice([1, -1]) * 2.0 ** -rng.randint(20, 40))     # relative 1e-6 … 1e-12
+    if r < 0.9:
+        return v
+    return rng.choice([0, float(v) + 1, int(v) if float(v).is_integer() else v])
+
+
+NEAR_BASES = [1000000, 1048576, 1.0, 0, 0.5, -250000, 3, 123456789, 1e-3, 4096.25]
+
+
+def gen_near(rng):
+    """value cells in pairs holding the same number, formulas a-b, a=b, a+b, SUM/COUNT/INDEX over them"""
+    npairs = rng.randint(1, 3)
+    nodes = []
+    for p in range(npairs):
+        b = rng.choice(NEAR_BASES)
+        nodes.append(['I', f'Sheet1!A{p + 1}', _tok(b)])
+        nodes.append(['I', f'Sheet1!B{p + 1}', _tok(b if rng.random() < 0.8 else near_value(rng, b))])
+    inputs = list(range(len(nodes)))
+    rn = None
+    if rng.random() < 0.7:
+        nodes.append(['R', f'Sheet1!A1:B{npairs}', npairs, 2, inputs[:]])
+        rn = len(nodes) - 1
+    row = npairs + 1
+    for k in range(rng.randint(2, 5)):
+        cellnodes = [i for i, n in enumerate(nodes) if n[0] != 'R']
+        kind = rng.choice(['sub', 'sub', 'eq', 'eq', 'add', 'sum', 'ref', 'idx', 'cnt'])
+        if kind in ('sum', 'idx', 'cnt') and rn is None:
+            kind = 'sub'
+        if kind in ('sub', 'eq'):
+            p = rng.randrange(npairs)
+            # `=` only on value cells: float arithmetic on wildly different magnitudes is inexact, the model is exact
+            pool = inputs if kind == 'eq' else cellnodes
+            args = [2 * p, 2 * p + 1] if rng.random() < 0.7 else [rng.choice(pool), rng.choice(pool)]
+        elif kind == 'add':
+            args = [rng.choice(cellnodes), rng.choice(cellnodes)]
+        elif kind == 'ref':
+            args = [rng.choice(cellnodes)]
+        elif kind == 'idx':
+            args = [rn, rng.randint(1, npairs), rng.randint(1, 2)]
+        else:
+            args = [rn] + ([rng.choice(cellnodes)] if rng.random() < 0.4 else [])
+        nodes.append(['F', f'Sheet1!{colname(1 + k % 3)}{row + k // 3}', kind, args])
+    # history: evaluate, then near-equal writes (single and multi-cell), evaluate again
+    cur = {i: _py(nodes[i][2]) for i in inputs}
+    rects = input_rects(nodes)
+    ops = [['E', a] for a in range(len(nodes)) if rng.random() < 0.8]
+    for _ in range(rng.randint(1, 8)):
+        r = rng.random()
+        if r < 0.45:
+            i = rng.choice(inputs)
+            v = near_value(rng, cur[i])
+            cur[i] = v
+            ops.append(['S', i, _tok(v)])
+        elif r < 0.6:
+            op = gen_multi_write(rng, nodes, rects, inputs, value=lambda j: near_value(rng, cur[j]))
+            for j, t in zip(op[2], op[3]):
+                cur[j] = _py(t)
+            ops.append(op)
+        else:
+            ops.append(['E', rng.randrange(len(nodes))])
+    tail = list(range(len(nodes)))
+    rng.shuffle(tail)
+    return nodes, ops + [['E', a] for a in tail]
 
 
 # three fixed small workbooks for the exhaustive core
@@ -509,16 +711,24 @@ def _fixed():
           ['F', 'Sheet1!B1', 'sum', [2]], ['F', 'Sheet1!B2', 'cat', [0, 3]]]
     w3 = [['I', 'Sheet1!A1', n_(1)], ['F', 'Sheet1!A2', 'ref', [0]], ['R', 'Sheet1!A1:A2', 2, 1, [0, 1]],
           ['F', 'Sheet1!B1', 'idx', [2, 2, 1]], ['F', 'Sheet1!B2', 'cnt', [2, 0]]]
-    return [w1, w2, w3]
+    w4 = [['I', 'Sheet1!A1', n_(1)], ['I', 'Sheet1!A2', n_(2)], ['R', 'Sheet1!A1:A2', 2, 1, [0, 1]],
+          ['F', 'Sheet1!B1', 'sum', [2]], ['F', 'Sheet1!B2', 'add', [0, 0]]]
+    return [w1, w2, w3, w4]
+
+
+def _alphabet(w, k):
+    if k == 3:      # w4: multi-cell writes over a built / not yet built range, a formula reading a member directly
+        return [['E', 3], ['E', 4], ['E', 2], ['SR', 'Sheet1!A1:A2', [0, 1], [_tok(5), _tok(6)], 0],
+                ['SR', ['Sheet1!A2', 'Sheet1!A1'], [1, 0], [_tok(2), _tok(1)], 0], ['S', 0, _tok(7)], ['EL', [4, 3]]]
+    inputs = [i for i, n in enumerate(w) if n[0] == 'I']
+    evals = [['E', i] for i, n in enumerate(w) if n[0] != 'I' or len(inputs) == 1][:4]
+    writes = [None, False, 7] if len(inputs) == 1 else [None, True]
+    return (evals + [['S', i, _tok(v)] for i in inputs for v in writes])[:7]
 
 
 def exhaustive_cases(maxlen):
-    for w in _fixed():
-        inputs = [i for i, n in enumerate(w) if n[0] == 'I']
-        evals = [['E', i] for i, n in enumerate(w) if n[0] != 'I' or len(inputs) == 1][:4]
-        writes = [None, False, 7] if len(inputs) == 1 else [None, True]
-        alphabet = evals + [['S', i, _tok(v)] for i in inputs for v in writes]
-        alphabet = alphabet[:7]
+    for k, w in enumerate(_fixed()):
+        alphabet = _alphabet(w, k)
         tail = [['E', i] for i in range(len(w))]
         for cfg in ('nodata', 'xlsx'):
             for ln in range(1, maxlen + 1):
@@ -532,7 +742,11 @@ def exhaustive_cases(maxlen):
 def cases(tier, rng):
     thorough = tier == 'thorough'
     yield from exhaustive_cases(4 if thorough else 3)
-    n = 4000 if thorough else 400
+    for k in range(3000 if thorough else 300):
+        nodes, ops = gen_near(rng)
+        yield {'cfg': ('nodata', 'xlsx', 'nodata', 'yml')[k % 4] if k % 8 else 'pkl', 'nodes': nodes, 'ops': ops,
+               'near': 1}
+    n = 4000 if thorough else 350
     cfgs = ['nodata', 'xlsx', 'nodata', 'xlsx', 'yml', 'json', 'pkl']
     for k in range(n):
         cfg = cfgs[k % len(cfgs)]
